@@ -205,6 +205,9 @@ func Shapes() []*Grammar {
 	add("literal-under-opt", Seq(Opt(Lit("ab")), Alt(Lit("ac"), a()), Not(Dot())))
 	add("literal-under-star", Seq(Star(Lit("ab")), Opt(a()), Not(Dot())))
 	add("literal-under-plus", Seq(Plus(Lit("aa")), Lit("ab")))
+	add("rule-under-plus-partial", Seq(Plus(Ref(1)), Opt(Ref(2)), Lit(";"), Not(Dot())), Seq(Class(R('a', 'b')), Lit("="), Class(R('0', '1'))), Class(R('a', 'b')))
+	add("rule-under-opt-partial", Seq(Opt(Ref(1)), Opt(Ref(2)), Lit(";"), Not(Dot())), Seq(Class(R('a', 'b')), Lit("="), Class(R('0', '1'))), Class(R('a', 'b')))
+	add("rule-under-plus-partial-2", Seq(Plus(Ref(1)), a(), c()), Seq(a(), b()))
 	add("rule-under-star-partial", Seq(Star(Ref(1)), Opt(Ref(2)), Lit(";"), Not(Dot())), Seq(Class(R('a', 'b')), Lit("="), Class(R('0', '1'))), Class(R('a', 'b')))
 	// predicates and state changes
 	add("predicate-guard", Alt(Seq(Pred(0), a()), Seq(Pred(1), b()), c()))
